@@ -230,6 +230,15 @@ func campaign(t *testing.T, prof gen.Profile) {
 			}
 		}
 	}
+	// still timing out: once more with a budget no loaded machine exhausts
+	// (a generator that really hangs - there is such a finding - still does)
+	sess.GenTimeout = 900 * time.Second
+	for i, o := range outs {
+		if o.Failure == "timeout" {
+			stats.Class("rerun-alone-900s:timeout")
+			outs[i] = sess.GenerateAndCompile(designs[i], true)
+		}
+	}
 	sess.GenTimeout = 60 * time.Second
 
 	accepted, rejected := 0, 0
